@@ -393,6 +393,26 @@ def run(facts, rep, tier):
         if not ok:
             # index projections through Vec::index calls
             ok = ("index(" in d.get("lat", "") and ", 0)" in d.get("lat", "")) and ("index(" in d.get("lon", "") and ", 1)" in d.get("lon", ""))
+        if not ok:
+            # split_once / destructured forms: the last tuple index applied to the split result selects the part
+            from ..lineexpr import walk as _walk
+
+            def part_index(e):
+                best = None
+                for x in _walk(e):
+                    cand = None
+                    if x[0] == "path" and "split" in repr(x[1]):
+                        ints = [p_ for p_ in x[2] if isinstance(p_, int) and not isinstance(p_, bool)]
+                        if ints:
+                            cand = (len(repr(x[1])), ints[-1])
+                    if x[0] == "call" and x[1].split("::")[-1] in ("index", "get", "nth") and len(x[2]) == 2 and x[2][1][0] == "const" \
+                            and "split" in repr(x[2][0]):
+                        cand = (len(repr(x[2][0])), x[2][1][1])
+                    if cand is not None and (best is None or cand[0] < best[0]):
+                        best = cand        # the projection sitting directly on the split result
+                return best[1] if best else None
+            fe = dict(zip(rv["fields"], [expr(du, o) for o in rv["ops"]]))
+            ok = part_index(fe.get("lat", ("?",))) == 0 and part_index(fe.get("lon", ("?",))) == 1
         rep.oblige(ok, ("coords-order",))
         if not ok:
             rep.add(Finding("R08.7", "observer 'lat,lon' parse order", "Coordinates{lat: %s, lon: %s}" % (d.get("lat", "")[:80], d.get("lon", "")[:80]), ag["body"].loc()))
